@@ -38,7 +38,7 @@ CONSTANTS NK,        \* keys are 1..NK (as ranks in the documented key order); R
           Remotes,   \* remotes that may sync (AG); the consumer "L" is linked from the start
           Mode,      \* "rt" | "ag" | "comp"
           Ghost,     \* maintain P's ghost state
-          MaxOps     \* with Ghost: bound on the number of lane writes (state constraint OpsBound)
+          MaxLag     \* with Ghost: no subscriber lags more than MaxLag lane writes behind (state constraint LagBound)
 
 Keys == 1..NK
 Vals == 1..NV
@@ -294,7 +294,7 @@ Next ==
 
 Spec == Init /\ [][Next]_vars
 
-OpsBound == p.now <= MaxOps
+LagBound == PLag(p) <= MaxLag
 
 -----------------------------------------------------------------------------
 (* M-only sanity invariants                                                   *)
